@@ -84,6 +84,9 @@ for _b in ("Sequence[int]", "Sequence[list[int]]", "Collection[str]", "Mapping[s
 form("class:user-class-named-like-builtin-generic", "class Mapping:\n    pass\n\n\nclass Sequence:\n    pass\n\n\nclass dict@:\n    pass\n\n\ndef f@(a: Mapping, b: Sequence, c: dict@) -> None:\n    ...\n")
 form("class:metaclass", "class M@(type):\n    pass\n\n\nclass C@(metaclass=M@):\n    pass\n")
 form("class:dataclass", "from dataclasses import dataclass, field\n\n\n@dataclass\nclass C@:\n    a: int\n    b: list[int] = field(default_factory=list)\n    c: str = 'x'\n")
+# methods that the type checker generates (they exist in its class body, not in the source the docstring library reads)
+form("class:dataclass-order", "from dataclasses import dataclass\n\n\n@dataclass(order=True)\nclass C@:\n    a: int\n    b: str = 'x'\n")
+form("class:total-ordering", "import functools\n\n\n@functools.total_ordering\nclass C@:\n    def __init__(self, v: int) -> None:\n        self.v = v\n\n    def __eq__(self, other: object) -> bool:\n        return True\n\n    def __lt__(self, other: 'C@') -> bool:\n        return True\n")
 form("class:dataclass-frozen-slots", "from dataclasses import dataclass\n\n\n@dataclass(frozen=True, slots=True)\nclass C@:\n    a: int = 1\n")
 form("class:nested-3", "class A@:\n    class B@:\n        class C@:\n            x: int = 1\n\n            def m(self) -> 'A@.B@.C@':\n                return self\n")
 form("class:enum-in-class", "from enum import Enum\n\n\nclass A@:\n    class E@(Enum):\n        X = 1\n")
